@@ -194,7 +194,7 @@ func verifC25Gen(r *verifutil.Rand, i int, thorough bool) []string {
 
 func TestVerifC25(t *testing.T) {
 	verifutil.Main(t, &verifutil.Harness{
-		ID: "C25", Exec: verifC25Exec, Gen: verifC25Gen, Quick: 3000, Thorough: 60000,
+		ID: "C25", Exec: verifC25Exec, Gen: verifC25Gen, Quick: 3000, Thorough: 30000,
 		Class: func(op, impl string) string {
 			if strings.HasPrefix(op, "reset") {
 				return "reset"
